@@ -6,7 +6,7 @@
    with the content and with the model's load.   Proved in Coq so far (stages of T2, for all inputs):
    scalars (C12), the whole data section (every frame, point, residual, analog sample, any sizes), name
    binding by position, the stream discipline, and that the loader reaches no unchecked access. *)
-From EZ Require Import Base Bytes Types Api Enc Dec Float32 Run Proofs_Bytes Proofs_Codec Proofs_Record Proofs_Chain Proofs_Robust.
+From EZ Require Import Base Bytes Types Api Enc Dec Float32 Run Proofs_Bytes Proofs_Codec Proofs_Section Proofs_Record Proofs_Chain Proofs_HeaderCodec Proofs_Robust.
 Local Open Scope N_scope.
 
 (* stage: a float is read back as the pattern its four bytes spell *)
@@ -73,6 +73,13 @@ Theorem C02_record_chain : forall its fuel gs st r,
     end.
 Proof. exact walk_items. Qed.
 Print Assumptions C02_record_chain.
+
+(* Header::read on a well-formed header block: every field, and the stream left at the first parameter block *)
+Theorem C02_header_block : forall h d st rest, wf_hdr h -> wf_header h -> u16 d ->
+  st_fail st = false -> st_file st = header_bytes h d ++ rest ->
+  read_header st = Ok (with_dstart h d, mkStream (st_file st) 512 rest false).
+Proof. exact read_header_written. Qed.
+Print Assumptions C02_header_block.
 
 Example C02_nonvacuous :
   let rate := mkParam nm_RATE [] false TFloat [1] [] [1120403456] [] in
